@@ -145,8 +145,8 @@ pub fn value_bytes<E: Entry>(g: &mut Gen, st: &mut Stats) -> CaseResult {
         match wellformed(&out) {
             Ok(n) if n == out.len() => {}
             other => {
-                // `Tag` encodes a bare tag head, which is not a complete item by design
-                if E::NAME == "Tag" { return Ok(()) }
+                // `Tag` and the structural `Token`s encode a bare head, which is not a complete item by design
+                if crate::registry::head_only::<E>() && E::model(&v).is_none() { return Ok(()) }
                 fail!("ill-formed", "{:?} encoded as {} which is not exactly one well-formed item ({:?})", v, short_hex(&out), other)
             }
         }
